@@ -1,6 +1,7 @@
 package rig
 
 import (
+	"bytes"
 	"context"
 	"fmt"
 	"runtime/debug"
@@ -47,7 +48,22 @@ type StepCfg struct {
 	// AfterRun is called after Session.Run and before the barrier handlers are registered.
 	AfterRun func(h *simplefixgo.DefaultHandler, s *session.Session)
 	Watchdog time.Duration
+	// OnHandler is called with the handler before the session is constructed.
+	OnHandler func(h *simplefixgo.DefaultHandler)
+	// SentinelBarrier: instead of per-type barrier handlers, a sentinel message of a
+	// private type is fed after each inbound message; the handler is unbuffered, so the
+	// sentinel is taken only after the message before it has been served completely.
+	// Use when application type handlers may refuse (which would skip a barrier handler).
+	SentinelBarrier bool
 }
+
+// SentinelType is the MsgType of the sentinel message.
+const SentinelType = "ZZS"
+
+// IsSentinel reports whether raw is the sentinel message.
+func IsSentinel(raw []byte) bool { return bytes.Contains(raw, []byte("\x0135="+SentinelType+"\x01")) }
+
+var sentinelMsg = fixref.Encode(fixref.Std, "FIX.4.4", SentinelType, nil)
 
 // Out is one message emitted by the library.
 type Out struct {
@@ -121,6 +137,9 @@ func NewStepRig(cfg StepCfg) (*StepRig, error) {
 	var err error
 	if cfg.Role == Acceptor {
 		r.H = simplefixgo.NewAcceptorHandler(ctx, "35", cfg.BufferSize)
+		if cfg.OnHandler != nil {
+			cfg.OnHandler(r.H)
+		}
 		lim := cfg.Limits
 		if lim == nil {
 			lim = &session.IntLimits{Min: 5, Max: 60}
@@ -130,6 +149,9 @@ func NewStepRig(cfg StepCfg) (*StepRig, error) {
 		}, func(ls *session.LogonSettings) error { return cfg.OnLogon(ls) }, cfg.Counter, cfg.Messages)
 	} else {
 		r.H = simplefixgo.NewInitiatorHandler(ctx, "35", cfg.BufferSize)
+		if cfg.OnHandler != nil {
+			cfg.OnHandler(r.H)
+		}
 		hb := cfg.HeartBtInt
 		if hb == 0 {
 			hb = 10
@@ -181,8 +203,12 @@ func NewStepRig(cfg StepCfg) (*StepRig, error) {
 	if cfg.AfterRun != nil {
 		cfg.AfterRun(r.H, r.S)
 	}
-	for _, t := range []string{"A", "5", "0", "1", "2", "3", "4", "V", "W", "X", "Y", "D", "8", "ZZ"} {
-		r.ensureBarrier(t)
+	if cfg.SentinelBarrier {
+		r.ensureBarrier(SentinelType)
+	} else {
+		for _, t := range []string{"A", "5", "0", "1", "2", "3", "4", "V", "W", "X", "Y", "D", "8", "ZZ"} {
+			r.ensureBarrier(t)
+		}
 	}
 	go func() {
 		defer close(r.runDone)
@@ -250,15 +276,20 @@ func (r *StepRig) sample(res *StepResult, t0 time.Time) {
 func (r *StepRig) Inbound(msg []byte) StepResult {
 	t0 := time.Now()
 	m := r.mark()
-	if fs, err := fixref.TokenizeLoose(msg); err == nil {
-		if ty, ok := fixref.Get(fs, "35"); ok {
-			r.ensureBarrier(string(ty))
+	if !r.Cfg.SentinelBarrier {
+		if fs, err := fixref.TokenizeLoose(msg); err == nil {
+			if ty, ok := fixref.Get(fs, "35"); ok {
+				r.ensureBarrier(string(ty))
+			}
 		}
 	}
 	served := make(chan struct{})
 	go func() {
 		defer close(served)
 		r.H.ServeIncoming(msg)
+		if r.Cfg.SentinelBarrier {
+			r.H.ServeIncoming(sentinelMsg)
+		}
 	}()
 	timer := time.NewTimer(r.Cfg.Watchdog)
 	defer timer.Stop()
